@@ -7,7 +7,7 @@ from .c07 import mk
 from .common import P, RecTransport
 
 PROPERTY = "C16"
-BUDGET_S = {"quick": 300, "thorough": 900}
+BUDGET_S = {"quick": 600, "thorough": 900}
 STUBS = ["struct/bytes/enum lowering", "SimpleService.methods: equality-scan dict (ScanDict) so that a symbolic method id is compared, not hashed"]
 ASSUMPTIONS = [
     "one message per datagram with a consistent length field (concatenation and bad lengths: C01/C03)",
